@@ -146,7 +146,9 @@ class RtCheckAfterStep(_Stub):
     def call_requires(self, it, A):
         h = it.p.ghost["heap"]
         sim = A.sim
-        return {"C17_judges_the_step_just_performed": And(h["CSd"][sim], h["LS"][sim] == h["CSv"][sim])}
+        # (begun[sim] is the ghost "last step this simulator began": it outlives current_step, so the clause does not depend on
+        #  where exactly between the step and the next loop iteration the check is made)
+        return {"C17_judges_the_step_just_performed": And(h["BGd"][sim], h["LS"][sim] == h["BGv"][sim])}
 
 
 class GetMaxAdvanceStub(_Stub):
